@@ -1,7 +1,7 @@
 SPECIFICATION Spec
 CONSTANTS
   NPaths = 3
-  Contents = {"ClsDoc", "ClsPlain", "GInt", "GStr", "ReqB", "UseFoo"}
+  Contents = {"ClsDoc", "ClsPlain", "GInt", "GStr", "ReqB", "ReqA", "UseFoo"}
   Ops = {}
   MaxSteps = 0
   EditDist = 3
